@@ -35,7 +35,7 @@ func sortMain(args []string) {
 		for i := 0; i < 8; i++ {
 			port := 20000 + (i%4)*7 + m // ports repeat inside a manager (different hosts) and across managers
 			addr := fmt.Sprintf("127.0.%d.%d:%d", m+1, i+1, port)
-			idm[addr] = uint32(1 + (i*3+m)%6) + uint32(100*(i/6))
+			idm[addr] = uint32(1+(i*3+m)%6) + uint32(100*(i/6))
 		}
 		// ids must be unique per manager
 		seen := map[uint32]bool{}
